@@ -12,7 +12,7 @@ G == IF Tier = "quick" THEN 6 ELSE 9
 Span == 8
 
 Families ==
-  {"mat22", "mat23", "bounds", "kb", "unb", "thin"} \cup
+  {"mat22", "mat23", "bounds", "kb", "unb", "thin", "odd"} \cup
   (IF Tier = "quick" THEN {} ELSE {"mat33", "mat24", "kb3", "mat34"})
 
 SystemsOf(f) ==
@@ -26,7 +26,9 @@ SystemsOf(f) ==
                           SysKBOf(A, Vec(Len(A[1]), 2), Vec(Len(A[1]), 8), KVariants(2)) : A \in {A22, A23}}
     [] f = "kb3" -> SysKBOf(A33, Vec(3, 0), Vec(3, 4), KVariants(3)) \cup SysKBOf(A34, Vec(4, 0), Vec(4, 4), KVariants(3))
     [] f = "unb" -> UNION {SysUnbOf(A) : A \in {A22, A23, A33}} \cup
-                    UNION {SysKBOf(A, Vec(Len(A[1]), 0), Vec(Len(A[1]), INF), KVariants(Len(A))) : A \in {A22, A23}}
+                    UNION {SysKBOf(A, Vec(Len(A[1]), 0), Vec(Len(A[1]), INF), KVariants(Len(A))) : A \in {A22, A23}} \cup
+                    UNION {SysKBOf(A, [j \in 1..Len(A[1]) |-> IF j = 1 THEN 1 ELSE 2], Vec(Len(A[1]), INF), KVariants(Len(A))) : A \in {A22, A23}}
+    [] f = "odd" -> UNION {SysOddOf(A, TRUE) \cup SysOddOf(A, FALSE) : A \in {A22, A23, A33}}
     [] f = "thin" -> UNION {SysBoundsOf(A) \cup SysUnbOf(A) : A \in {A32, A21, A31}}
 
 Init == pc = "init" /\ key = "" /\ out = <<>>
